@@ -45,7 +45,9 @@ def wf_query(ex, g, Y, X, C=None):
     return [("outcomes-in-graph", L.forall(1, lambda v: L.Implies(Y.has(v), g.N(v)))),
             ("treatments-in-graph", L.forall(1, lambda v: L.Implies(X.has(v), g.N(v)))),
             ("disjoint", L.forall(1, lambda v: L.Not(L.And(X.has(v), Y.has(v))))),
-            ("outcomes-nonempty", L.exists(1, lambda v: Y.has(v)))] + (
+            ("outcomes-nonempty", L.exists(1, lambda v: Y.has(v))),
+            # nodes of an ID query are plain variables: a counterfactual variable cannot be summed over (Sum.__post_init__: TypeError)
+            ("plain-nodes", L.forall(1, lambda v: L.Implies(g.N(v), L.Not(L.is_cf(v)))))] + (
         [("conditions-in-graph", L.forall(1, lambda v: L.Implies(C.has(v), g.N(v))))] if C is not None else [])
 
 
